@@ -27,7 +27,8 @@ DICT = {'fz_parse': 'xml.dict', 'fz_dtd': 'xml.dict', 'fz_xsd': 'xsd.dict', 'fz_
 # construction (LSan suppression file / input filter in fz_regex, counted) and their witnesses are replayed without the exclusion on every run.
 KNOWN = {'C01-dtd-contentspec-leak': r'LeakSanitizer: detected memory leaks[^\n]*DTDScanner::scan(Children|Mixed)',
          'C01-regex-nested-closure-recursion': r'stack-overflow[^\n]*RegularExpression::',
-         'C01-regex-nongreedy-zero-width-loop': r'libFuzzer: timeout[^\n]*RegularExpression::match'}
+         'C01-regex-nongreedy-zero-width-loop': r'libFuzzer: timeout[^\n]*RegularExpression::match',
+         'C01-regex-counted-quantifier-unrolling': r'libFuzzer: timeout[^\n]*(compileClosure|createQuestionOp|OpFactory::|RegularExpression::compile)'}
 SUPP = os.path.join(xv.VERIF, 'harness', 'lsan_known.supp')
 
 def cfg_suffix(i):
@@ -293,6 +294,9 @@ def nongreedy_nullable(pat):
 def classify(case, detail):
     for fid, rx in KNOWN.items():
         if re.search(rx, detail):
+            if fid == 'C01-regex-counted-quantifier-unrolling':
+                if not re.search(rb'\{[^{}]*\d{4,}[^{}]*\}', base64.b64decode(case.get('input_b64', ''))): continue
+                return fid
             if fid == 'C01-regex-nongreedy-zero-width-loop':
                 body = base64.b64decode(case.get('input_b64', ''))[:-2]
                 if case.get('target') != 'fz_regex' or not nongreedy_nullable(body.split(b'\n')[0]): continue
